@@ -158,6 +158,10 @@ def options_body(env, p):
     cols = {"bin1_id": [b1[i] for i in order], "bin2_id": [b2[i] for i in order], "count": [v[i] for i in order]}
     path = scratch_file("c02o.cool")
     stream = chunk_stream(cols, cuts, lambda items, k: env.array(list(items), dts[k]))
+    if p.get("frames"):
+        # chunks given as data frames whose row labels are not 0..n-1 (e.g. the result of a shuffle or a filter)
+        stream = (env.pd.DataFrame(ch, index=np.array([7 + 3 * ((i * 2) % max(len(next(iter(ch.values()))), 1)) + i for i in range(len(next(iter(ch.values()))))]))
+                  for ch in list(stream))
     co.create_cooler(path, bins, stream, ordered=True, symmetric_upper=upper, ensure_sorted=True, **flags)
     if env.symbolic:
         prove_valid(path)
@@ -177,7 +181,7 @@ CHECKS = [
           doc="ordered create() from any sorted stream (zero chunks, empty chunks): raw store satisfies the schema predicate",
           bounds=dict(quick="<=2 chromosomes, n<=3, K<=3, m<=2 chunks (and the zero-chunk stream)", thorough="n<=4, K<=4, m<=3"),
           stubs=("E3 in-memory h5py model", "E4 pandas models on symbolic columns"), timeout=1500),
-    Check("create_options", lambda tier: [dict(layout=[2], K=2, m=1, upper=u) for u in (True, False)] + ([dict(layout=[2, 1], K=3, m=2, upper=True)] if tier != "quick" else []),
+    Check("create_options", lambda tier: [dict(layout=[2], K=2, m=1, upper=u) for u in (True, False)] + [dict(layout=[2], K=3, m=1, upper=True, frames=True)] + ([dict(layout=[2, 1], K=3, m=2, upper=True)] if tier != "quick" else []),
           options_sym, options_real, labels=("chunk_unsorted",),
           doc="create with ensure_sorted=True and every combination of boundscheck/triucheck/dupcheck, records inside each chunk in a solver-chosen order: "
               "the output is a valid CSR collection",
